@@ -347,12 +347,33 @@ def fold_apps(ctx, t, acc):
 
 def induction(ctx, hyps, goal, timeout_ms):
     """fold induction: generalise the common length argument of the folds in the goal"""
-    # unfold named sequence constants (S_x == term hypotheses) so that the folds they stand for are visible
-    defs = list(ctx.named_defs)
+    # make the folds visible: unfold, outside fold arguments only, (a) named sequence constants (S_x == term) and
+    # (b) applications of recursive specification functions (N(f) becomes the fold it is defined by)
+    named = {c.get_id(): t for c, t in ctx.named_defs}
+    spec_decls = {d.get_id(): (d, formals, body) for d, formals, body in ctx.spec_defs.values()}
     for _ in range(4):
-        if not defs:
+        pairs = []
+
+        def collect(t):
+            if z3.is_app(t):
+                if ctx.folds.is_fold(t.decl()):
+                    return
+                if t.num_args() == 0 and t.get_id() in named:
+                    pairs.append((t, named[t.get_id()]))
+                    return
+                ent = spec_decls.get(t.decl().get_id())
+                if ent is not None and t.num_args() == len(ent[1]):
+                    inst = z3.substitute(ent[2], *[(f, t.arg(i)) for i, f in enumerate(ent[1])])
+                    pairs.append((t, inst))
+                    return
+                for c in t.children():
+                    collect(c)
+            elif z3.is_quantifier(t):
+                collect(t.body())
+        collect(goal)
+        if not pairs:
             break
-        goal = z3.substitute(goal, *defs)
+        goal = z3.substitute(goal, *pairs)
     apps = []
     fold_apps(ctx, goal, apps)
     if not apps:
@@ -366,23 +387,50 @@ def induction(ctx, hyps, goal, timeout_ms):
         if z3.is_int_value(n):
             continue
         k = z3.Int('k!ind')
-        pairs = []
+        # induction with the folds unfolded by hand (no recursive-function unfolding inside the solver):
+        #   F(args, k)   is abstracted by a fresh constant  A_F
+        #   F(args, k+1) is  combine(A_F, step_F(args, k))
+        #   F(args, 0)   is  the neutral element
+        I = z3.Int('I!')
+        at_k, at_k1, at_0 = [], [], []
         seen = set()
+        total = 0.0
+        ok = True
+        backends = set()
+        uniq = []
         for a in group:
             if a.get_id() in seen:
                 continue
             seen.add(a.get_id())
-            args = [a.arg(j) for j in range(a.num_args() - 1)]
-            pairs.append((a, a.decl()(*(args + [k]))))
-        gk = z3.substitute(goal, *pairs)
-        g0 = z3.substitute(gk, (k, z3.IntVal(0)))
-        g1 = z3.substitute(gk, (k, k + 1))
-        total = 0.0
-        ok = True
-        backends = set()
+            uniq.append(a)
+            info = ctx.folds.info(a.decl())
+            params, norm, neutral, combine = info[3], info[4], info[5], info[6]
+            step_k = z3.substitute(norm, *([(p, a.arg(j)) for j, p in enumerate(params)] + [(I, k)]))
+            ctx.counter += 1
+            A = z3.Const(f'A!{ctx.counter}', a.sort())
+            at_k.append((a, A))
+            at_k1.append((a, combine(A, step_k)))
+            at_0.append((a, neutral))
+            uniq[-1] = (a, info[2], step_k)
+        gk = z3.substitute(goal, *at_k)
+        g0 = z3.substitute(goal, *at_0)
+        g1 = z3.substitute(goal, *at_k1)
+        # pointwise lemmas: equality of the k-th steps of two folds of the same kind (a separate, usually linear,
+        # query; keeps products of uninterpreted terms out of the inductive step)
+        step_lemmas = []
+        if len(uniq) <= 6:
+            for x in range(len(uniq)):
+                for y in range(x + 1, len(uniq)):
+                    (a, ka, sa), (b, kb, sb) = uniq[x], uniq[y]
+                    if ka != kb or a.sort() != b.sort() or a.decl().eq(b.decl()) or not ka in ('sum', 'prod'):
+                        continue
+                    v, be, dt, _ = check_valid(ctx, list(hyps) + [0 <= k, k < n], sa == sb, min(timeout_ms, 5000), use_cli=False, full=False)
+                    total += dt
+                    if v == 'proved':
+                        step_lemmas.append(sa == sb)
         for label, hy, gl in (('nonneg', hyps, n >= 0), ('base', hyps, g0),
-                              ('step', list(hyps) + [0 <= k, k < n, gk], g1)):
-            v, be, dt, _ = check_valid(ctx, hy, gl, timeout_ms, use_cli=False)
+                              ('step', list(hyps) + [0 <= k, k < n, gk] + step_lemmas, g1)):
+            v, be, dt, _ = check_valid(ctx, hy, gl, timeout_ms, use_cli=False, full=False)
             total += dt
             backends.add(be)
             if v != 'proved':
@@ -395,43 +443,60 @@ def induction(ctx, hyps, goal, timeout_ms):
 
 
 def fold_equalities(ctx, hyps, goal, timeout_ms):
-    """auxiliary lemmas: pairwise equality of the folds (same length argument, same sort) that occur in the
-    hypotheses and the goal, each proved by fold induction before it is used"""
-    apps = []
-    for t in list(hyps) + [goal]:
+    """auxiliary lemmas: pairwise equality of numeric folds (same length argument, same sort) occurring in the goal
+    or the hypotheses, each proved by fold induction before it is used; stops as soon as the goal follows"""
+    in_goal = []
+    fold_apps(ctx, goal, in_goal)
+    goal_ids = {a.get_id() for a in in_goal}
+    apps = list(in_goal)
+    for t in hyps:
         fold_apps(ctx, t, apps)
-    uniq = {}
-    for a in apps:
-        uniq[a.get_id()] = a
-    apps = list(uniq.values())
-    found = []
-    tried = 0
+    apps = list({a.get_id(): a for a in apps}.values())
+    cands = []
     for x in range(len(apps)):
         for y in range(x + 1, len(apps)):
             a, b = apps[x], apps[y]
-            if a.decl().eq(b.decl()) or a.sort() != b.sort():
+            if a.decl().eq(b.decl()) or a.sort() != b.sort() or z3.is_seq(a):
                 continue
             if not a.arg(a.num_args() - 1).eq(b.arg(b.num_args() - 1)):
                 continue
-            if z3.is_seq(a):
+            if a.get_id() not in goal_ids and b.get_id() not in goal_ids:
                 continue
-            tried += 1
-            if tried > 12:
-                return found
-            eq = a == b
-            ind = induction(ctx, hyps, eq, min(timeout_ms, 4000))
-            if ind is not None and ind[0] == 'proved':
-                found.append(eq)
+            ka, kb = ctx.folds.info(a.decl())[2], ctx.folds.info(b.decl())[2]
+            if ka != kb:
+                continue
+            cands.append((a, b))
+    found = []
+    for a, b in cands[:10]:
+        eq = a == b
+        ind = induction(ctx, hyps, eq, min(timeout_ms, 2500))
+        if ind is not None and ind[0] == 'proved':
+            found.append(eq)
+            v, _, _, _ = check_valid(ctx, list(hyps) + found, goal, 2500, use_cli=False, full=False)
+            if v == 'proved':
+                break
     return found
 
 
-def discharge(ctx, ob, timeout_ms=None):
+def discharge(ctx, ob, timeout_ms=None, outside=None, known_ids=()):
     timeout_ms = timeout_ms or Z3_TIMEOUT_MS
     res = {'id': ob.id, 'kind': ob.kind, 'desc': ob.desc, 'lineno': ob.lineno}
     t0 = time.time()
     inductive = ob.kind.startswith(('post', 'lemma')) or ob.kind in ('inv_preserve', 'inv_init', 'pre')
     # 1. e-matching only; 2. fold induction; 3. full z3 (model finding); 4. CLI back ends on the SMT-LIB dump
     v, be, dt, extra = check_valid(ctx, ob.hyps, ob.goal, timeout_ms, use_cli=False, full=False)
+    if v != 'proved' and outside is not None:
+        # recorded known-finding region: prove on its complement before spending the budget on refutation
+        hy = list(ob.hyps) + [outside]
+        v2, be2, _, _ = check_valid(ctx, hy, ob.goal, timeout_ms, use_cli=False, full=False)
+        if v2 != 'proved' and inductive:
+            ind = induction(ctx, hy, ob.goal, timeout_ms)
+            if ind is not None and ind[0] == 'proved':
+                v2, be2 = 'proved', ind[1]
+        if v2 == 'proved':
+            res.update(verdict='proved-outside-known', verdict_plain=v, known=list(known_ids), backend=be2,
+                       seconds=round(time.time() - t0, 3))
+            return res
     if v != 'proved' and inductive:
         ind = induction(ctx, ob.hyps, ob.goal, timeout_ms)
         if ind is not None and ind[0] == 'proved':
@@ -500,10 +565,9 @@ def verify(fid, index=None, loaded=None, timeout_ms=None):
     if info['returns'] == 0 and not con.raises:
         out.update(status='ENGINE-ERROR', reason='no path reaches a return (vacuous)')
         return out
-    results = [discharge(ctx, ob, timeout_ms) for ob in ctx.obligations]
-    # known-finding regions: re-prove failing obligations on the complement of the recorded regions
-    bad = [(ob, r) for ob, r in zip(ctx.obligations, results) if r['verdict'] != 'proved']
-    if bad and con.known:
+    # known-finding regions: failing obligations are re-proved on the complement of the recorded regions
+    outside = None
+    if con.known:
         p0 = Path(info['entry_pc'], dict(ex.entry_env))
         regions = []
         for kid, fn in con.known:
@@ -513,17 +577,7 @@ def verify(fid, index=None, loaded=None, timeout_ms=None):
                 out.setdefault('notes', []).append(f'known region {kid} not translatable: {e}')
         if regions:
             outside = z3.Not(z3.Or(*regions))
-            for ob, r in bad:
-                v, be, dt, _ = check_valid(ctx, list(ob.hyps) + [outside], ob.goal, timeout_ms, use_cli=False)
-                if v != 'proved':
-                    ind = induction(ctx, list(ob.hyps) + [outside], ob.goal, timeout_ms)
-                    if ind is not None and ind[0] == 'proved':
-                        v, be = 'proved', ind[1]
-                if v == 'proved':
-                    r['verdict_plain'] = r['verdict']
-                    r['verdict'] = 'proved-outside-known'
-                    r['known'] = [k for k, _ in con.known]
-                    r['backend'] = be
+    results = [discharge(ctx, ob, timeout_ms, outside, [k for k, _ in con.known]) for ob in ctx.obligations]
     # refutation of what is left: ground-instantiated axioms -> candidate model -> heap description
     from .refute import refute, dump_heap
     for ob, r in zip(ctx.obligations, results):
@@ -531,7 +585,7 @@ def verify(fid, index=None, loaded=None, timeout_ms=None):
             continue
         try:
             hyps = list(ob.hyps)
-            if con.known and 'outside' in dir():
+            if outside is not None:
                 hyps = hyps + [outside]
             m, n_inst = refute(ctx, hyps, ob.goal)
             if m is not None:
